@@ -146,14 +146,8 @@ where
                 // issues and reinitialize if an outdated value was set.
                 let initial_value = self.global_state.latest_value.load();
 
-                #[cfg(folo_verif)]
-                crate::__verif::point("with_in_region/latest-loaded");
-
                 let expected_generation = initial_value.generation;
                 let actual_generation = regional_state.initialize(&initial_value);
-
-                #[cfg(folo_verif)]
-                crate::__verif::point("with_in_region/initialized");
 
                 // The commit will fail if the generation of the value we set does not match
                 // the generation of the value that was initialized. We do not know which one
@@ -524,9 +518,6 @@ where
             });
 
             let new_value = RegionalValue::Ready(value.clone());
-
-            #[cfg(folo_verif)]
-            crate::__verif::point("initialize/cloned");
 
             // It is possible that another thread has assigned a new global value
             // while we are doing this, so our `value` is out of date already. We
